@@ -11,7 +11,7 @@ import glob
 import os
 import warnings
 
-from ..astutil import iter_stmts, norm, where
+from ..astutil import iter_stmts, norm, str_const, where
 from ..flow import enumerate_paths
 from ..loader import dotted
 from ..rules import sig
@@ -260,13 +260,27 @@ def _deep_copy(run, P):
         f = P.func(key)
         c = f"{f.key}:deep-copy-grid"
         deep_branch = None
+        negated = False
+
+        def _deep_test(t):
+            """(is a test of the deep flag, negated)"""
+            if isinstance(t, ast.UnaryOp) and isinstance(t.op, ast.Not):
+                ok_, neg_ = _deep_test(t.operand)
+                return ok_, not neg_
+            if isinstance(t, ast.Name) and t.id == "deep":
+                return True, False
+            if isinstance(t, ast.Call) and isinstance(t.func, ast.Attribute) and t.func.attr == "get" and t.args and str_const(t.args[0]) == "deep" and (len(t.args) == 1 or norm(t.args[1]) in ("None", "False")):
+                return True, False
+            return False, False
         for st in iter_stmts(f.node.body):
-            if isinstance(st, ast.If) and isinstance(st.test, ast.Name) and st.test.id == "deep":
-                deep_branch = st
+            if isinstance(st, ast.If):
+                ok_, neg_ = _deep_test(st.test)
+                if ok_:
+                    deep_branch, negated = st, neg_
         if deep_branch is None:
             run.incomplete("ALIAS/deep-copy", c, where(f), "branch on `deep` not found")
             continue
-        got = [norm(s.value) for s in deep_branch.body if isinstance(s, ast.Assign)]
+        got = [norm(s.value) for s in (deep_branch.orelse if negated else deep_branch.body) if isinstance(s, ast.Assign)]
         if any(g in ("self.uxgrid.copy()", "copy.deepcopy(self.uxgrid)") for g in got):
             run.holds("ALIAS/deep-copy", c, where(f, deep_branch), "a deep copy receives a copy of the grid")
         else:
